@@ -17,7 +17,8 @@ ID = 'C02'
 LEVEL = 'exploration'
 BUDGET = {'quick': 4000, 'thorough': 25000}
 RULE = ("Case = sender (SBlock whose 'set' event assigns the output, initialised by its regular "
-        "routine or by an event arriving during start-up; or FuncBlock identity/bool/pair/const fed by an "
+        "routine or by an event arriving during start-up; or a library block: Input fed by puts, Counter fed by "
+        "inc/dec/put/reset, ValuePoll whose polls yield a value or nothing; or FuncBlock identity/bool/pair/const fed by an "
         "Input, one evaluation per value or several puts per evaluation) x 0-3 on_output x 0-3 "
         "on_every_output events over <=3 shared recorders, each event with 0-2 filters from "
         "{add tag, delete 'trigger', strip all items, reject-if-value-in-set} x history of 0-30 assignments over "
@@ -77,10 +78,10 @@ event_st = st.fixed_dictionaries({
 
 @st.composite
 def cases(draw):
-    kind = draw(st.sampled_from(['sblock', 'sblock', 'cblock']))
+    kind = draw(st.sampled_from(['sblock', 'sblock', 'cblock', 'lib']))
     case = {'kind': kind,
             'on_output': draw(st.lists(event_st, max_size=3)),
-            'on_every_output': draw(st.lists(event_st, max_size=3)) if kind == 'sblock' else []}
+            'on_every_output': draw(st.lists(event_st, max_size=3)) if kind != 'cblock' else []}
     n = draw(st.integers(0, 30))
     hist = []
     small = draw(st.booleans())         # a small sub-pool makes repeats and equal pairs frequent
@@ -97,6 +98,19 @@ def cases(draw):
         case['init'] = draw(st.sampled_from(['regular', 'event']))
         if not hist:
             case['hist'] = [[draw(st.integers(0, len(POOL) - 1)), False]]
+    elif kind == 'lib':
+        # a library block as the sender: every accepted put / every counter event / every poll that
+        # yields a value is one output assignment
+        case['lib'] = draw(st.sampled_from(['input', 'counter', 'valuepoll']))
+        if not hist:
+            case['hist'] = hist = [[draw(st.integers(0, len(POOL) - 1)), False]]
+        if case['lib'] == 'counter':
+            case['initdef'] = draw(st.sampled_from([0, 1, 3, 2.0]))
+            case['ops'] = [[draw(st.sampled_from(['inc', 'dec', 'put', 'reset'])),
+                            draw(st.sampled_from([None, 0, 0, 1, 2, 1.0, True, 0.0]))] for _ in hist]
+        elif case['lib'] == 'valuepoll':
+            # polls that yield nothing (UNDEF) between the values; never the first one
+            case['gaps'] = [False] + [draw(st.integers(0, 4)) == 0 for _ in hist[1:]]
     else:
         case['func'] = draw(st.sampled_from(FUNCS))
         case['initdef'] = [draw(st.integers(0, len(POOL) - 1)), False]
@@ -197,6 +211,67 @@ def execute(case):
                 if circuit.error is not None:
                     break
             info['final'] = snd.output
+        elif case['kind'] == 'lib':
+            objs = [mkval(*h) for h in case['hist']]
+            edzed.Input('dummy', initdef=0)
+            if case['lib'] == 'input':
+                assigned.extend(objs)
+                snd = edzed.Input('snd', initdef=objs[0], on_output=oo, on_every_output=eo)
+            elif case['lib'] == 'counter':
+                snd = edzed.Counter('snd', initdef=case['initdef'], on_output=oo, on_every_output=eo)
+            else:
+                feed = []
+                for obj, gap in zip(objs, case['gaps']):
+                    if gap:
+                        feed.append(UNDEF)
+                    feed.append(obj)
+                assigned.extend(objs)
+                it = iter(feed)
+                snd = edzed.ValuePoll('snd', func=lambda: next(it, UNDEF), interval=1, init_timeout=5,
+                                      on_output=oo, on_every_output=eo)
+            sim = harness.Running()
+            await sim.__aenter__()
+            if sim.init_error is not None:
+                info['init_error'] = repr(circuit.error)
+                await sim.stop()
+                return
+            if case['lib'] == 'input':
+                marks.append((0, len(log)))
+                for obj in objs[1:]:
+                    n0 = len(log)
+                    edzed.ExtEvent(snd, 'put').send(obj)
+                    marks.append((n0, len(log)))
+                    if circuit.error is not None:
+                        break
+            elif case['lib'] == 'counter':
+                cur_c = case['initdef']
+                assigned.append(cur_c)
+                marks.append((0, len(log)))
+                for op, amount in case['ops']:
+                    n0 = len(log)
+                    if op == 'put':
+                        val = 0 if amount is None else amount
+                        edzed.ExtEvent(snd, 'put').send(val)
+                        new = val
+                    elif op == 'reset':
+                        edzed.ExtEvent(snd, 'reset').send()
+                        new = case['initdef']
+                    else:
+                        if amount is None:
+                            edzed.ExtEvent(snd, op).send()
+                            amount = 1
+                        else:
+                            edzed.ExtEvent(snd, op).send(amount=amount)
+                        new = cur_c + amount if op == 'inc' else cur_c - amount
+                    assigned.append(new)
+                    if not (cur_c == new):
+                        cur_c = new         # an equal value leaves the old output object in place
+                    marks.append((n0, len(log)))
+                    if circuit.error is not None:
+                        break
+            else:
+                await __import__('asyncio').sleep(len(feed) + 1.5)
+            info['final'] = snd.output
         else:
             init = mkval(*case['initdef'])
             info['init_obj'] = init
@@ -247,7 +322,7 @@ def execute(case):
                 expected.append((f"r{s['dest']}", f'{prefix}{i}', data, k))
 
     type_pun = repeat = fresh_repeat = False
-    if case['kind'] == 'sblock':
+    if case['kind'] in ('sblock', 'lib'):
         for k, v in enumerate(assigned):
             changed = cur is UNDEF or not (cur == v)
             if cur is not UNDEF and cur == v:
@@ -310,14 +385,15 @@ def execute(case):
         if bad:
             res.fail('C02.data', f"delivery {n} ({g[1]}): item {bad[0]!r} is {gd[bad[0]]!r}, expected {ed[bad[0]]!r}")
             break
-        if case['kind'] == 'sblock' or case['func'] == 'identity':
+        if case['kind'] == 'sblock' or (case['kind'] == 'lib' and case['lib'] != 'counter') or (
+                case['kind'] == 'cblock' and case['func'] == 'identity'):
             # identity: 'previous' is the old output object, 'value' the assigned object
             for key in ('previous', 'value'):
                 if key in gd and gd[key] is not ed[key]:
                     res.fail('C02.identity', f"delivery {n}: {key!r} is an equal object but not the "
                              f"one that was assigned ({gd[key]!r})")
                     break
-    if case['kind'] == 'sblock' and not res.violations:
+    if (case['kind'] == 'sblock' or (case['kind'] == 'lib' and case['lib'] != 'valuepoll')) and not res.violations:
         # synchronous delivery: the deliveries of assignment k lie between its marks
         if len(marks) != len(assigned):
             res.fail('C02.marks', f"{len(marks)} assignments seen, expected {len(assigned)}")
@@ -333,7 +409,7 @@ def execute(case):
 
     nev = len(case['on_output']) + len(case['on_every_output'])
     res.nontrivial = (type_pun or fresh_repeat) and repeat and nev >= 2
-    res.classes = [case['kind'], f"events={min(nev, 4)}{'+' if nev >= 4 else ''}"]
+    res.classes = [case['kind'] if case['kind'] != 'lib' else 'library block ' + case['lib'], f"events={min(nev, 4)}{'+' if nev >= 4 else ''}"]
     if type_pun:
         res.classes.append('equal values of different type')
     if fresh_repeat:
